@@ -106,6 +106,9 @@ def run(res, proof):
         jobs.append({'text': txt, 'mode': 'full', 'lines': single, 'check_release': True}); metas.append(('full', S, txt))
         if rng.random() < 0.3:
             jobs.append({'text': txt, 'mode': 'full', 'ignore': ['reaction']}); metas.append(('ignore-reactions', S, txt))
+        if rng.random() < 0.2:
+            # read, empty the returned dictionary in place (keeping the objects), read the same text again
+            jobs.append({'text': txt, 'mode': 'full', 'reread': True}); metas.append(('read-twice', S, txt))
         if prev is not None and rng.random() < 0.5:
             # the same configured session read (and released) another system before: names are reused with other meanings
             jobs.append({'text': txt, 'mode': 'full', 'session': [prev]}); metas.append(('after-another-document', S, txt))
@@ -129,6 +132,8 @@ def run(res, proof):
         if d:
             sect = d.split('.')[1].split('[')[0] if '.' in d else 'summary'
             res.violation('attribute-mismatch:%s:%s' % (mode, sect), {'text': txt, 'session': [m[2] for m in metas if m[2] == prev_of.get(txt)]}, d, 'exactly the declared attributes')
+        if mode == 'read-twice' and r.get('reread_line') != r.get('line'):
+            res.violation('second-read-differs', {'text': txt}, str(r.get('reread_line'))[:200], 'the same result as the first read: ' + str(r.get('line'))[:120])
         if r.get('identity'):
             res.violation('not-identical-singletons', {'text': txt}, '; '.join(r['identity'][:3]), 'objects referenced by name are the identical singletons')
         if r.get('line_vs_doc'):
@@ -138,7 +143,7 @@ def run(res, proof):
     # ---- correspondence: the Lean reader model (grammar + kernel translation + object world) on the same documents
     lines, impl = [], []
     for (mode, S, txt), r, job in zip(metas, results, jobs):
-        if mode == 'after-another-document':
+        if mode in ('after-another-document', 'read-twice'):
             continue
         ign = 'reaction' if mode == 'ignore-reactions' else ''
         lines.append('reset'); impl.append('ok')
